@@ -627,7 +627,7 @@ func TestC09(t *testing.T) {
 	r.Require("starvation_probes", n)
 	r.Require("complete_heads_accepted", n/20)
 	r.Require("complete_heads_rejected", n/20)
-	r.Require("reused_object_parses", n*2)
+	r.Require("reused_object_parses", n*3/2)
 	r.Require("pool_judged_conns", n/10)
 	r.Require("pool_abandoned_after_first_request", n/10)
 	r.Require("pool_ctx_reuse_observed", n/40)
